@@ -281,7 +281,9 @@ pub fn second_opinion(ctx: &Context, e: ExprRef, used: &[ExprRef], env: &Env, re
         if o.replies.first().and_then(|r| r.sym()) != Some("sat") {
             return Err(bad("not-sat"));
         }
-        if matches!(exp, Val::Arr(_)) {
+        // arrays anywhere in the term: acceptance only (z3's model evaluator does not compare arrays over a
+        // finite index sort extensionally)
+        if matches!(exp, Val::Arr(_)) || reachable(ctx, &[e]).iter().any(|n| n.get_type(ctx).is_array()) {
             rec.label("second-opinion:array-term-accepted");
             continue;
         }
